@@ -287,8 +287,18 @@ def allowList : List Allowed := [
     why := "hook H2 (pivot event callback pointer), exists only under SLU_VERIF; read by ilu_[sdcz]pivotL, set by the harness before threads start" }
 ]
 
+/-- the two routines whose documented purpose is to FILL the caller's options structure -/
+def optionSetters : List String := ["set_default_options(options)", "ilu_set_default_options(options)"]
+
+/-- `options` is an input of every other routine: it neither stores through the pointer (directly or through a
+callee) nor keeps it.  A routine that did would carry state from one call into every later call that shares the
+caller's structure — interference without any static variable. -/
+def optionsParamOk (o : StaticObj) : Bool :=
+  (!o.written && !o.escapes) || (o.file == "SRC/util.c" && optionSetters.contains o.name && !o.escapes)
+
 def entryOk (o : StaticObj) : Bool :=
-  allowList.any fun a => a.file == o.file && a.name == o.name && a.cond o
+  if o.kind == "options-param" then optionsParamOk o
+  else allowList.any fun a => a.file == o.file && a.name == o.name && a.cond o
 
 /-- **The census is clean**: the translator succeeded on the current source, it looked at the whole
 library, and every writable object with static storage duration it found is a reviewed, harmless
@@ -302,7 +312,16 @@ theorem census_objects_empty : (census.filter fun o => o.inObject) = [] := by
   decide
 
 /-- no compiled object of the census is written by the library or has its address escape -/
-theorem census_no_writer : (census.filter fun o => o.kind != "inactive" && (o.written || o.escapes)) = [] := by
+theorem census_no_writer :
+    (census.filter fun o => o.kind != "inactive" && o.kind != "options-param" && (o.written || o.escapes)) = [] := by
+  decide
+
+/-- **The options structure is read-only** for every library routine that receives it (29 routines on the pinned
+tree: the drivers, the factorizations, `sp_preorder`, `ilu_?drop_row`, the printers), the two default-setters
+excepted. -/
+theorem options_read_only :
+    25 ≤ (census.filter fun o => o.kind == "options-param").length ∧
+    (census.filter fun o => o.kind == "options-param" && (o.written || o.escapes)).map (·.name) = optionSetters.reverse := by
   decide
 
 end Slu.C09
